@@ -38,6 +38,7 @@ type Result struct {
 	Configured map[string]int `json:"configured,omitempty"`
 	Probes     map[string]int `json:"probes,omitempty"`
 	Pairs      map[string]int `json:"-"`
+	Cover      map[string]int `json:"-"`                    // check-specific coverage items (only their number is reported)
 	Population string         `json:"population,omitempty"` // e.g. "fault-free" / "faults"
 	Schedule   []sched.Step   `json:"schedule,omitempty"`
 	Log        []string       `json:"log,omitempty"`
@@ -136,6 +137,7 @@ type Stats struct {
 	Configured   map[string]int    `json:"faults_configured"`
 	Probes       map[string]int    `json:"probes"`
 	Pairs        map[string]int    `json:"switch_pairs"`
+	Cover        map[string]int    `json:"cover_items"`
 	Populations  map[string]int    `json:"populations"`
 	KnownHits    map[string]int    `json:"known_hits"`
 	KnownReplay  map[string]string `json:"known_replay"`
@@ -260,7 +262,7 @@ func Explore[S any](t *testing.T, c Check[S]) {
 	gen.Progress = func() { sched.Heartbeat.Add(1) }
 	st := &Stats{Property: c.Property, Worker: env.Worker, Seed: env.Seed,
 		Faults: map[string]int{}, Configured: map[string]int{}, Probes: map[string]int{}, Pairs: map[string]int{},
-		Populations: map[string]int{}, KnownHits: map[string]int{}, KnownReplay: map[string]string{}, Extra: map[string]int{}}
+		Populations: map[string]int{}, KnownHits: map[string]int{}, KnownReplay: map[string]string{}, Extra: map[string]int{}, Cover: map[string]int{}}
 	hashes := map[string]struct{}{}
 	start := time.Now()
 	deadline := start.Add(time.Duration(env.BudgetS * float64(time.Second)))
@@ -320,6 +322,7 @@ func Explore[S any](t *testing.T, c Check[S]) {
 				merge(st.Configured, res.Configured)
 				merge(st.Probes, res.Probes)
 				merge(st.Pairs, res.Pairs)
+				merge(st.Cover, res.Cover)
 				if res.Population != "" {
 					st.Populations[res.Population]++
 				}
